@@ -310,6 +310,29 @@ def run_shard(ctx):
                 acc.fail({'defect': 'traversal-raises', 'etype': c['etype'], 'func': c['func']}, {'text': text[:300], 'error': str(e)[:200]})
                 continue
             raise
+        # a traversal abandoned because the visitor raised (what a planner does on a statement it rejects) must leave
+        # nothing behind: the visitor's own exception comes out, and later traversals in this process are judged as usual
+        if i % 2 == 0:
+            from mindsdb_sql.planner.utils import query_traversal
+            stop_at = max(1, len(visits) - 1 - (i % 3))
+            seen_n = [0]
+
+            class _Abandon(Exception):
+                pass
+
+            def _raising(node, **kw):
+                seen_n[0] += 1
+                if seen_n[0] >= stop_at:
+                    raise _Abandon()
+            acc.count('abandoned_traversals')
+            try:
+                query_traversal(copy.deepcopy(tree), _raising)
+                if len(visits) >= stop_at:
+                    acc.fail({'defect': 'visitor-exception-swallowed'}, {'text': text[:300], 'visits': len(visits), 'stop_at': stop_at})
+            except _Abandon:
+                pass
+            except Exception as e:
+                acc.fail({'defect': 'visitor-exception-replaced', 'etype': type(e).__name__}, {'text': text[:300], 'error': str(e)[:200]})
         for e in req:
             if e['parent']:
                 acc.add('class_fields_seen', f"{e['parent']}.{e['field']}")
